@@ -5,6 +5,16 @@ from sx import plspec
 from . import common as C
 
 
+
+def _clear_caches(ns_):
+    """empty the configurator-level caches if the current tree has any (lru_cache on the class, pinned tree); a no-op for per-instance caches"""
+    for name in ("ge_polyhedron", "leafs"):
+        f = ns_.cc.StingyConfigurator.__dict__.get(name)
+        f = getattr(f, "fget", f)
+        cc_ = getattr(f, "cache_clear", None)
+        if cc_ is not None:
+            cc_()
+
 def _snap(n, node):
     if issubclass(node.__class__, n.puan.variable):
         return ("var", str(node.id), int(node.bounds.lower), int(node.bounds.upper))
@@ -35,7 +45,7 @@ def observe(spec, inputs):
     base, added = spec["model"], spec["added"]
     out = {"error": None, "raised": None}
     try:
-        n.cc.StingyConfigurator.ge_polyhedron.fget.cache_clear()
+        _clear_caches(n)
         c0 = plspec.build(n, base, env)
         out["before"] = _snap(n, c0)
         cur = c0
@@ -52,9 +62,9 @@ def observe(spec, inputs):
             direct = plspec.build(n, {"t": "SC", "id": base["id"], "ch": list(base["ch"]) + list(added)}, env)
             out["direct"] = _snap(n, direct)
             out["prios_equal"] = cur.default_prios == direct.default_prios
-            n.cc.StingyConfigurator.ge_polyhedron.fget.cache_clear()
+            _clear_caches(n)
             Pa = cur.ge_polyhedron
-            n.cc.StingyConfigurator.ge_polyhedron.fget.cache_clear()
+            _clear_caches(n)
             Pb = direct.ge_polyhedron
             out["poly_equal"] = bool(numpy.asarray(Pa).tolist() == numpy.asarray(Pb).tolist() and [v.id for v in Pa.variables] == [v.id for v in Pb.variables]
                                      and list(Pa.default_prio_vector) == list(Pb.default_prio_vector))
